@@ -34,6 +34,9 @@ func scaleCases(tier string) []scalekit.Case {
 	for _, n := range scale.Sizes(40, 129) {
 		out = append(out, scalekit.Case{Shape: "many-revisions", N: n})
 	}
+	for _, n := range scale.Sizes(80, 513) {
+		out = append(out, scalekit.Case{Shape: "big-directory", N: n})
+	}
 	for k := 2; k <= maxK; k++ {
 		i := 0
 		scale.IncludeTrees(k, func(kids [][]int) {
@@ -44,7 +47,99 @@ func scaleCases(tier string) []scalekit.Case {
 	return out
 }
 
+// big-directory: one search-path directory with n entries, among them lib@2019-03-07.yang,
+// lib@2021-11-23.yang, libx.yang, lib@bad.yang and (n even) lib.yang: dated and undated requests and
+// imports must pick the files the chooser prescribes, as in a small directory.
+func checkBigDirectory(cs scalekit.Case) scalekit.Verdict {
+	root, err := os.MkdirTemp("..", "c13-big-")
+	if err != nil {
+		panic(err)
+	}
+	root, _ = filepath.Abs(root)
+	defer os.RemoveAll(root)
+	dir := filepath.Join(root, "d")
+	os.MkdirAll(dir, 0o755)
+	mod := func(name, where, extra string) []byte {
+		return []byte(fmt.Sprintf(`module %s { namespace "urn:%s"; prefix %s; %s description "%s"; }`, name, name, name, extra, where))
+	}
+	names := []string{"lib@2019-03-07.yang", "lib@2021-11-23.yang", "libx.yang", "lib@bad.yang"}
+	if cs.N%2 == 0 {
+		names = append(names, "lib.yang")
+	}
+	for _, fn := range names {
+		extra := ""
+		if d, ok := dated(fn, "lib"); ok {
+			extra = "revision " + d + ";"
+		}
+		m := "lib"
+		if fn == "libx.yang" {
+			m = "libx"
+		}
+		os.WriteFile(filepath.Join(dir, fn), mod(m, fn, extra), 0o644)
+	}
+	os.WriteFile(filepath.Join(dir, "user.yang"), mod("user", "user.yang", "import lib { prefix l; revision-date 2019-03-07; }"), 0o644)
+	os.WriteFile(filepath.Join(dir, "user2.yang"), mod("user2", "user2.yang", "import lib { prefix l; }"), 0o644)
+	for i := len(names) + 2; i < cs.N; i++ {
+		os.WriteFile(filepath.Join(dir, fmt.Sprintf("z%04d.yang", i)), mod(fmt.Sprintf("z%04d", i), "filler", ""), 0o644)
+	}
+	all := [][]string{append([]string{}, names...)}
+	for _, c := range []struct {
+		req, viaImport string
+	}{{"lib@2019-03-07", ""}, {"lib@2021-11-23", ""}, {"lib", ""}, {"", "user"}, {"", "user2"}, {"libx", ""}} {
+		ms := yang.NewModules()
+		ms.AddPath(dir)
+		req := c.req
+		want := ""
+		if c.viaImport != "" {
+			if err := ms.Read(c.viaImport); err != nil {
+				return scalekit.Bad("read-missed-the-candidate", c.viaImport, err.Error())
+			}
+			if errs := ms.Process(); len(errs) > 0 {
+				return scalekit.Bad("spurious-errors", "no errors", dump.Errors(errs))
+			}
+			if c.viaImport == "user" {
+				want = "lib@2019-03-07.yang"
+			} else {
+				want = strings.TrimPrefix(choose(all, "lib"), "d0/")
+			}
+			imp := ms.Modules[c.viaImport].Import[0].Module
+			got := "<unbound>"
+			if imp != nil && imp.Description != nil {
+				got = imp.Description.Name
+			}
+			if got != want {
+				return scalekit.Bad("import-bound-to-another-file", want, fmt.Sprintf("%s (directory of %d entries)", got, cs.N))
+			}
+			continue
+		}
+		if err := ms.Read(req); err != nil {
+			return scalekit.Bad("read-missed-the-candidate", req, fmt.Sprintf("%v (directory of %d entries)", err, cs.N))
+		}
+		switch req {
+		case "lib":
+			want = strings.TrimPrefix(choose(all, "lib"), "d0/")
+		case "libx":
+			want = "libx.yang"
+		default:
+			want = req + ".yang"
+		}
+		got := ""
+		for _, m := range ms.Modules {
+			if m.Description != nil {
+				got = m.Description.Name
+			}
+		}
+		if got != want {
+			return scalekit.Bad("read-chose-wrong-file", want, fmt.Sprintf("%s (directory of %d entries)", got, cs.N))
+		}
+	}
+	return scalekit.OK()
+}
+
 func checkScale(cs scalekit.Case) scalekit.Verdict {
+	if cs.Shape == "big-directory" {
+		return checkBigDirectory(cs)
+	}
 	if cs.Shape == "many-revisions" {
 		// a module with n revision statements, the latest one in the middle of the list, next to
 		// a module with one older and one with one newer revision
